@@ -289,6 +289,41 @@ Print Assumptions G_C13_reveal_total.
 """
 
 
+LINKED_WRITER = r"""
+(** one operation of the public Writer trait on the VecWriter regenerated from src/common/vec_writer.rs
+    (a [u8] argument is a number below 256) *)
+Definition gen_wop_step (data : list N) (o : wop) : outcome (list N * option obs) :=
+  match o with
+  | WU8 x => omap (fun d => (d, None)) (gen_vw_write_u8 data (x mod 256))
+  | WU16 x => omap (fun d => (d, None)) (gen_vw_write_u16_be data x)
+  | WU32 x => omap (fun d => (d, None)) (gen_vw_write_u32_be data x)
+  | WU64 x => omap (fun d => (d, None)) (gen_vw_write_u64_be data x)
+  | WBytes b => omap (fun d => (d, None)) (gen_vw_write_bytes data b)
+  | WBytesAt b off => omap (fun d => (d, None)) (gen_vw_write_bytes_at data b off)
+  | WLen => omap (fun '(n, d) => (d, Some (ONum n))) (gen_vw_len data)
+  | WIsEmpty => omap (fun '(b, d) => (d, Some (OBool b))) (gen_vw_is_empty data)
+  end.
+Theorem G_C18_writer_step : forall o w,
+  gen_wop_step (w_data w) o = omap (fun '(w', ob) => (w_data w', ob)) (wop_step w o).
+Proof.
+  intros o w. destruct o as [x|x|x|x|b|b off| |]; cbn [gen_wop_step wop_step omap obind].
+  - reflexivity.
+  - reflexivity.
+  - reflexivity.
+  - reflexivity.
+  - reflexivity.
+  - unfold gen_vw_write_bytes_at.
+    assert (E : forall (A B : Type) (x : outcome A) (f : A -> B), omap f x = obind x (fun a => Val (f a))) by reflexivity.
+    transitivity (omap (fun d => (d, @None obs)) (omap w_data (w_bytes_at b off w))).
+    + f_equal. vw_at_tie.
+    + unfold w_bytes_at. destruct (off + len b <=? w_len w); reflexivity.
+  - reflexivity.
+  - reflexivity.
+Qed.
+Print Assumptions G_C18_writer_step.
+"""
+
+
 def linked_text(defs):
     """one file: the regenerated reader as a ReaderImpl, the regenerated hide/reveal, and the theorems transported to them"""
     need = ['gen_sr_%s' % x[0] for x in SR] + ['gen_reveal', 'gen_hide']
@@ -299,6 +334,10 @@ def linked_text(defs):
         out += defs[n]
     out += TIE_REVEAL.replace('Lemma tie :', 'Lemma tie_reveal :') + TIE_HIDE.replace('Lemma tie :', 'Lemma tie_hide :')
     out += LINKED_TAIL
+    # the regenerated VecWriter, operation by operation, is the writer model of C18
+    vw = ['gen_vw_%s' % x[0] for x in VW]
+    if all(n in defs for n in vw):
+        out += ''.join(defs[n] for n in vw) + LINKED_WRITER
     # bitmask AVPs: constructor then accessors, on the regenerated functions (C17)
     for k in ('FramingCapabilities', 'BearerCapabilities', 'BearerType', 'FramingType'):
         ns = ['gen_bm_new_' + k, 'gen_bm_first_' + k, 'gen_bm_second_' + k]
